@@ -300,6 +300,11 @@ func (x *Exec) ghostShape(g *GhostDecl, name string, fresh bool) Value {
 		}
 		v := Value{Kind: KSlice, Arr: mk(name+".arr", ArraySort(SInt, es)), Len: mk(name+".len", SInt), IsNil: False}
 		x.addFact(v.Len, Le(IntLit(0), v.Len))
+		if g.Elem != "" {
+			if o := x.pkg.P.Types.Scope().Lookup(g.Elem); o != nil {
+				v.T = types.NewSlice(o.Type())
+			}
+		}
 		return v
 	}
 	return Scalar(mk(name, g.Sort), nil)
@@ -770,7 +775,9 @@ func (c *Ctx) arith(op token.Token, l, r *Term, T types.Type, e ast.Expr) *Term 
 		return wrapTo(res, T)
 	}
 	c.checkArith(res, T, e, op.String())
-	if c.wrapsIf(e) != nil {
+	// Go integer arithmetic wraps around; the value is modelled faithfully even where
+	// the overflow obligation (a separate proof obligation) fails
+	if _, _, ok := intRange(T); ok && !res.IsLit() {
 		return Ite(inRange(res, T), res, wrapTo(res, T))
 	}
 	return res
